@@ -47,6 +47,9 @@ DEFAULTS = dict(
     p_fcall_nest=0.0,    # an argument of an injectible function call is such a call itself
     p_name_clash=0.0,    # new variables named like locals of injectibles / sibling combines
     p_call_idb=0.0,      # a call prefers an intensional predicate (deeper plans)
+    p_reuse_pick=0.0,    # inside a scope built with sibling reuse a new local takes a freed
+    #                      sibling name with this probability (else: uniform over free names)
+    p_inj_feed=0.0,      # an input of an extra injectible call is an output of an earlier one
 )
 
 
@@ -66,7 +69,11 @@ class Gen(object):
         self.labels = set()
         self.kvariants = set()
         self.colvals = {}        # (pred, field) -> literal exprs present in facts
-        self.hot_names = []      # locals of injectibles' / sibling combines (p_name_clash)
+        self.hot_names = []      # local names shared by sibling scopes of a rule that may be
+        #                          injected (p_name_clash: the capture hazard of injection)
+        self.warm_names = []     # other parameter / local names of injectibles
+        self._reuse_pool = None  # sibling local names free for reuse in the current scope
+        self._reused = set()     # names that really are local to >= 2 sibling scopes
         self._nest = 0           # current combine/negation nesting (aggregating expressions)
         self._aggx_off = 0       # > 0: no aggregating expression here
 
@@ -96,15 +103,25 @@ class Gen(object):
             v = prefer
         else:
             hot = None
-            if self.o['p_name_clash'] and self.hot_names and \
+            pool = self._reuse_pool
+            if pool and self.o['p_reuse_pick'] and self.chance(self.o['p_reuse_pick']):
+                # controlled reuse (i), sharpened: take a name that IS local to a sibling
+                hot = sorted(v for v in pool if v not in self.used)
+            elif self.o['p_name_clash'] and (self.hot_names or self.warm_names) and \
                     self.chance(self.o['p_name_clash']):
                 # controlled reuse (ii): a caller's variable is named like a local of an
                 # injectible / of sibling combines of a predicate that may be injected
-                hot = [v for v in self.hot_names if v not in self.used]
+                pick = self.hot_names if (self.hot_names and (
+                    not self.warm_names or rng.random() < 0.65)) else self.warm_names
+                hot = [v for v in pick if v not in self.used]
                 if hot:
-                    self.labels.add('name_clash_candidate')
+                    self.labels.add('name_clash_candidate' if pick is self.warm_names
+                                    else 'name_clash_sibling_local')
             if hot:
                 v = rng.choice(hot)
+                if pool and v in pool:
+                    self._reused.add(v)
+                    self.labels.add('sibling_local_name_shared')
             else:
                 free = [v for v in VARNAMES if v not in self.used]
                 v = rng.choice(free) if free else 'vv%d' % len(self.used)
@@ -280,7 +297,7 @@ class Gen(object):
         return ('fcall', n, tuple((f, self.expr(ft, env, depth - 1, False))
                                   for f, ft in fields))
 
-    def inj_fcall(self, n, env, depth, nest=True):
+    def inj_fcall(self, n, env, depth, nest=True, feed=None):
         """Call of the injectible function n; with p_fcall_nest an argument is itself a
         call of an injectible function (F(F(1)): nested injection)."""
         ptypes = self.inj_sig[n][1]
@@ -300,6 +317,10 @@ class Gen(object):
                     self.labels.add('inj_fun_call_nested')
                     if m == n:
                         self.labels.add('inj_fun_call_nested_same')
+            fv = [v for v, vt in (feed or ()) if vt == pt]
+            if a is None and fv and self.chance(self.o['p_inj_feed']):
+                a = ('var', self.rng.choice(fv))
+                self.labels.add('inj_output_feeds_inj_input')
             if a is None:
                 a = self.expr(pt, env, depth - 1, False)
             args.append((i, a))
@@ -313,6 +334,7 @@ class Gen(object):
         if self.chance(p_reuse) and getattr(self, '_sib_locals', None):
             saved_used = set(self.used)
             self.used -= self._sib_locals
+            self._reuse_pool = set(self._sib_locals)
             self.labels.add('sibling_name_reuse')
         return (saved_used, set(self.used))
 
@@ -322,6 +344,7 @@ class Gen(object):
         if saved_used is not None:
             locals_ |= self._sib_locals & set(inner)
             self.used |= saved_used
+            self._reuse_pool = None
         self._sib_locals = set(getattr(self, '_sib_locals', set())) | locals_
         return locals_
 
@@ -445,14 +468,16 @@ class Gen(object):
         self.roots = set()
         self._sib_locals = set()
         self._agg_results = []
+        self._reused = set()
         saved = {k: o[k] for k in ('agg_ops', 'p_fcall', 'p_sibling_reuse',
-                                   'p_sibling_reuse_neg', 'p_name_clash')}
+                                   'p_sibling_reuse_neg', 'p_name_clash', 'p_reuse_pick')}
         o['agg_ops'] = tuple(x for x in o['agg_ops']
                              if x in ('Sum', 'Min', 'Max', 'Count', '+')) or ('Sum',)
         o['p_fcall'] = 0.0
         o['p_name_clash'] = 0.0
         o['p_sibling_reuse'] = max(o['p_sibling_reuse'], 0.7)
         o['p_sibling_reuse_neg'] = max(o['p_sibling_reuse_neg'], 0.7)
+        o['p_reuse_pick'] = max(o['p_reuse_pick'], 0.7)
         self._aggx_off += 1
         try:
             k_in = rng.randint(1, 2)
@@ -502,9 +527,12 @@ class Gen(object):
             self._aggx_off -= 1
             o.update(saved)
         self.inj_hot = getattr(self, 'inj_hot', []) + [name]
-        for v in sorted(self.used):
+        for v in sorted(self._reused):
             if v not in self.hot_names:
                 self.hot_names.append(v)
+        for v in sorted(self.used - self._reused):
+            if v not in self.warm_names:
+                self.warm_names.append(v)
 
     def _make_inj_plain(self, name):
         rng = self.rng
@@ -593,7 +621,7 @@ class Gen(object):
             self.labels.add('named_args')
         return ('call', name, tuple(args), tuple(opts))
 
-    def inj_call(self, env, name=None):
+    def inj_call(self, env, name=None, feed=None):
         rng = self.rng
         rels = [n for n in self.inj if self.inj_sig[n][0] == 'rel']
         if not rels:
@@ -603,7 +631,12 @@ class Gen(object):
         args = []
         for i, pt in enumerate(ptypes):
             if i < k_in:
-                args.append((i, self.expr(pt, dict(env), 1, allow_fcall=False)))
+                fv = [v for v, vt in (feed or ()) if vt == pt]
+                if fv and self.chance(self.o['p_inj_feed']):
+                    args.append((i, ('var', rng.choice(fv))))
+                    self.labels.add('inj_output_feeds_inj_input')
+                else:
+                    args.append((i, self.expr(pt, dict(env), 1, allow_fcall=False)))
             elif n in getattr(self, 'inj_hot', ()):
                 # output computed by a combine: always a fresh variable (unified with a
                 # bound one it would be the D11 class: a variable equated with an
@@ -754,6 +787,7 @@ class Gen(object):
             # names for the allocator while this combine is built.
             saved_used = set(self.used)
             self.used -= self._sib_locals
+            self._reuse_pool = set(self._sib_locals)
             self.labels.add('sibling_name_reuse')
         before = set(self.used)
         b = self.sub_body(inner, depth - 1)
@@ -791,6 +825,7 @@ class Gen(object):
                                                if saved_used is not None else set())
         if saved_used is not None:
             self.used |= saved_used
+            self._reuse_pool = None
         self._sib_locals = set(getattr(self, '_sib_locals', set())) | locals_
         v = self.newvar(env, t)
         self._agg_results = getattr(self, '_agg_results', []) + [v]
@@ -830,6 +865,7 @@ class Gen(object):
         hot = [n for n in getattr(self, 'inj_hot', []) if n in self.inj]
         out = []
         n = None
+        feed = []          # (variable, type): outputs of the calls made so far
         for i in range(rng.choice((1, 2, 2, 3))):
             if n is None or rng.random() < 0.4:
                 n = rng.choice(hot) if hot and rng.random() < 0.75 else \
@@ -837,11 +873,16 @@ class Gen(object):
             elif i:
                 self.labels.add('inj_called_twice')
             if self.inj_sig[n][0] == 'rel':
-                lit = self.inj_call(env, name=n)
+                lit = self.inj_call(env, name=n, feed=feed)
+                k_in = self.inj_sig[n][2]
+                for (i, a), pt in list(zip(lit[2], self.inj_sig[n][1]))[k_in:]:
+                    if a[0] == 'var':
+                        feed.append((a[1], pt))
             else:
-                fc = self.inj_fcall(n, dict(env), 2)
+                fc = self.inj_fcall(n, dict(env), 2, feed=feed)
                 v = self.newvar(env, self.inj_sig[n][2])
                 lit = ('assign', v, fc, '==')
+                feed.append((v, self.inj_sig[n][2]))
             out.append(lit)
         self.labels.add('inj_extra_calls')
         return out
@@ -924,6 +965,7 @@ class Gen(object):
             self.roots = set()
             self._sib_locals = set()
             self._agg_results = []
+            self._reused = set()
             body = self.body(env, o['nest_depth'])
             if self.chance(o['p_or']):
                 body.append(self.disjunction(env))
@@ -982,8 +1024,9 @@ class Gen(object):
             rules.append(mk_rule(name, head, body, value=val, distinct=distinct,
                                  opts=opts))
             if o['p_name_clash'] and nrules == 1 and not distinct:
-                # this predicate may get injected: its combine-local names are hazards
-                for v in sorted(self._sib_locals):
+                # this predicate may get injected: local names shared by its sibling
+                # scopes are capture hazards for its callers
+                for v in sorted(self._reused):
                     if v not in self.hot_names:
                         self.hot_names.append(v)
         if distinct:
